@@ -20,8 +20,8 @@ RULE = (
     "each evaluation is one seeded history of 1-5 parse() calls (N-Triples, N-Quads, Turtle, TriG, N3, RDF/XML, TriX, JSON-LD, HexTuples mixed) "
     "into one sink (Graph on Memory or SimpleMemory, Dataset with default_union off/on, ConjunctiveGraph, named Graph view on a dataset store) "
     "holding prior content; documents reuse blank-node labels between calls, repeat documents, use labels equal to ids already in the sink "
-    "(incl. ids rdflib generated for the previous call) and share one label across named graphs; delivery as str/bytes or through SimRaw/SimText "
-    "with short reads; in fault runs one call's stream fails (OSError or EOF) at a byte offset - the thorough tier enumerates every offset of a "
+    "(incl. ids rdflib generated for the previous call) and share one label across named graphs; delivery as str/bytes, through SimRaw/SimText with short reads, or by SPARQL LOAD through the simulated network; an unrelated earlier parse may have asked "
+    "for labels to be kept (preserve_bnode_ids / bnode_context); in fault runs one call's stream fails (OSError or EOF) at a byte offset - the thorough tier enumerates every offset of a "
     "sampled small document; after each call: old content literally preserved in every graph, new = old U f(doc) for an injective f into fresh "
     "blank nodes; distinct = distinct trace digest; non-trivial = at least 2 calls with a label collision of some kind"
 )
